@@ -26,7 +26,7 @@ ASSUMPTIONS = [
 COMPONENTS = {'real': ['yldprolog.engine evaluate_bounded, query, generated clause code', 'sys.setrecursionlimit / CPython recursion accounting'],
               'stub': ['caller (harness frames of seeded depth)', 'projection functions with raise switches'],
               'oracle': ['self-referential: plain enumeration of the same query under a high limit; sys.getrecursionlimit(); get_value of every (registered) variable']}
-REQUIRED_PROBES = ('database_at_depth_worlds', 'completeness_checked_after_projection_fault', 'limit_struck_in_search', 'complete_within_limit', 'proj_raise_fired', 'held_by_caller', 'inline_query', 'proj_overflow_or_recursive',
+REQUIRED_PROBES = ('nested_bounded_call_from_projection', 'database_at_depth_worlds', 'completeness_checked_after_projection_fault', 'limit_struck_in_search', 'complete_within_limit', 'proj_raise_fired', 'held_by_caller', 'inline_query', 'proj_overflow_or_recursive',
                    'initial_limit_below_given_limit')
 
 HIGH_LIMIT = 4000      # limit in force for the reference enumeration and the harness itself
@@ -114,7 +114,7 @@ def gen(seed, tier):
         world['prebind'] = []
         q = world['query']
     return {'world': world, 'query': q, 'd': rng.choice((0, 7, 23)), 'L0': rng.choice((650, 1000, 3000, ['rel', 60], ['rel', 150])), 'held': rng.random() < 0.6,
-            'proj': rng.choice(('index', 'index', 'to_python')), 'registry': rng.random() < 0.5,
+            'proj': rng.choice(('index', 'index', 'to_python', 'nested')), 'registry': rng.random() < 0.5,
             'limits': 'window', 'proj_faults': 'all'}
 
 
@@ -175,6 +175,9 @@ def _execute(plan):
             yp.assert_fact(yp.atom('colour'), [yp.atom(c_)])
         log.count('database_at_depth_worlds')
     counter = [0]
+    for i_ in (1, 2):
+        yp.assert_fact(yp.atom('nb__'), [i_])
+    nested_bad = []
     qvars = {}
     qargs = [TM.build(yp, TM.T(t), qvars) for t in targs]
     allvars = list(qvars.values())
@@ -249,6 +252,13 @@ def _execute(plan):
                 state['fired'] = True
                 state['exc'] = ProjFault('injected') if fault[1] == 'KeyError' else core.Boom('injected')
                 raise state['exc']
+            if projkind == 'nested':
+                # the projection makes a bounded call of its own on the same engine (re-entrant use)
+                v_ = yp.variable()
+                inner = yp.evaluate_bounded(yp.query('nb__', [v_]), lambda _: 7, recursion_limit=frame_depth() + 60)
+                log.count('nested_bounded_call_from_projection')
+                if inner != [7, 7]:
+                    nested_bad.append(inner)
             return project_value() if projkind == 'to_python' else k
         out = {}
 
@@ -285,6 +295,8 @@ def _execute(plan):
             log.count('initial_limit_below_given_limit')
         if esc == 'RecursionError':
             return 'recursion-error-escapes', tag
+        if nested_bad:
+            return 'nested-call-incomplete', dict(tag, inner_returned=core.jsonable(nested_bad[0]), note='a bounded call made by the projection on the same engine, 60 frames of its own, over two facts')
         if out['limit_after'] != L0:
             return 'limit-not-restored', dict(tag, initial=plan['L0'], after_minus_before=out['limit_after'] - L0, escaped=esc)
         if state['fired']:
